@@ -192,6 +192,10 @@ def run(ctx):
                     name, msg, site = ep.escaped[-1]
                     res.fail('loop-died:%s@%s' % (name, site), 'with a %s failure at call %s the event loop of %s ended with %s: %s'
                              % (fault[0], fault[1], ep.name, name, msg[:120]), {'seed': probe_seed, 'fault': list(map(str, fault)), 'ops': S.ser_ops(h.ops)})
+    # an authentic peer that says unusual things: whatever it says, no entry point may raise afterwards (timers keep running)
+    import rogue
+    import campaign as CPX
+    rogue.campaign(ctx, res, ctx.scale(12, 200), 50, oracles=[CPX.o_no_escape])
     return res
 
 
